@@ -44,8 +44,16 @@ def sim_config(draw, tier, small=True):
     nv = draw(st.integers(5, 7))
     iota = draw(st.sampled_from([0.8, 0.0, 0.8, -0.8]))
     R0 = draw(st.sampled_from([2.0, 5.0, 239.8081535]))
-    return base_cfg([nr, nq, nz, nv], iota, R0, eps=draw(st.sampled_from([1e-2, 0.05])),
-                    m=draw(st.integers(0, 3)), n=draw(st.integers(-2, 2)), dt=draw(st.sampled_from([1, 2, 3])))
+    cfg = base_cfg([nr, nq, nz, nv], iota, R0, eps=draw(st.sampled_from([1e-2, 0.05])),
+                   m=draw(st.integers(0, 3)), n=draw(st.integers(-2, 2)), dt=draw(st.sampled_from([1, 2, 3])))
+    if draw(st.booleans()):
+        # profile constants away from their defaults and from each other (the shipped files set kTe = kTi,
+        # deltaRTe = deltaRTi, CTe = CTi, which would hide a mix-up between ion and electron profiles)
+        cfg["phys"] = {"kTi": draw(st.sampled_from([0.27586, 0.2, 0.35])), "kTe": draw(st.sampled_from([0.27586, 0.15, 0.4])),
+                       "deltaRTi": draw(st.sampled_from([1.45, 1.0, 2.0])), "deltaRTe": draw(st.sampled_from([1.45, 0.9, 2.3])),
+                       "CTi": draw(st.sampled_from([1.0, 0.8])), "CTe": draw(st.sampled_from([1.0, 1.3])),
+                       "kN0": draw(st.sampled_from([0.055, 0.08])), "deltaRN0": draw(st.sampled_from([2.9, 2.0]))}
+    return cfg
 
 
 def admissible_grids(npts, maxP):
@@ -61,6 +69,7 @@ def cfg_kwargs(cfg):
     kw = {"npts": list(cfg["npts"]), "iotaVal": cfg["iotaVal"], "R0": cfg["R0"], "eps": cfg["eps"],
           "m": cfg["m"], "n": cfg["n"], "dt": cfg["dt"], "splineDegrees": list(cfg["splineDegrees"]),
           "zMax": cfg["R0"] * 2 * np.pi}
+    kw.update(cfg.get("phys", {}))
     return kw
 
 
@@ -74,6 +83,7 @@ def constants_json(cfg, symbolic=True):
          "deltaR": "4.0*deltaRN0/deltaRTi" if symbolic else 8.0, "CTi": 1.0, "CTe": "CTi" if symbolic else 1.0,
          "m": cfg["m"], "n": cfg["n"], "iotaVal": cfg["iotaVal"], "npts": list(cfg["npts"]),
          "splineDegrees": list(cfg["splineDegrees"]), "dt": cfg["dt"]}
+    d.update(cfg.get("phys", {}))
     return json.dumps(d, indent=0)
 
 
